@@ -22,8 +22,8 @@ STUBS = ["wrapper obligations: log_likelihood / log_likelihood_structural_change
          "carried-llk obligations are the C01/C02 harnesses restricted to their llk bookkeeping claims"]
 ASSUMES = ["cached values are never NaN (NaN is the miss sentinel; likelihoods of valid inputs are not NaN)",
            "bit-level equality of cached and recomputed values is argued (same function, same array), only value-level equality over the reals is solver-checked"]
-BOUNDS = {"quick": "arraymap: key length 2, 2 branches, <= 3 set operations + 1 get, initial size 2, max size 4 and 8 (growth and flush forced); wrappers: all genotypes ploidy 2 x 2 SNVs; pedigree dict cache: diploid trio, 2 reads per sample with symbolic counts in 0..2",
-          "thorough": "arraymap: key length <= 3, <= 3 branches, <= 4 operations, max size up to 16; pedigree: plus tetraploid trio"}
+BOUNDS = {"quick": "arraymap: key length 2, 2 branches, <= 3 set operations + 1 get, initial size 2, max size 4 and 8 (growth and flush forced); wrappers: all genotypes ploidy 2 x 2 SNVs (abstract map) and every history of 3 plain / structural lookups over those genotypes on the real arraymap with capacity 8 (growth and overflow flush in between); calling dict cache: insert / lookup histories over alleles {0,1,2,31,32,33,40,63,64,65} at ploidy 2 and 3 with int64 keys; pedigree dict cache: diploid trio, 2 reads per sample with symbolic counts in 0..2",
+          "thorough": "wrapper histories of 4 lookups, capacities 8 and 16; arraymap: key length <= 3, <= 3 branches, <= 4 operations, max size up to 16; pedigree: plus tetraploid trio"}
 OUTSIDE = "longer histories than the bound (each get is covered by the inductive reading: any reachable map state of <= k sets); bit-level equality; numba typed-dict semantics"
 TASKS_PER_CHILD = 4
 
@@ -36,6 +36,11 @@ def configs(tier):
         for k0 in itertools.product(range(b), repeat=min(L, 2)):
             out.append(dict(group="arraymap", L=L, b=b, nops=nops, init=init, max=mx, k0=list(k0)))
     out.append(dict(group="wrappers"))
+    # the assemble wrappers on the REAL arraymap with a tiny capacity: histories of plain / structural lookups that force growth and
+    # overflow flushes in between -- every value returned must be the likelihood of the genotype asked for
+    for first in range(4):
+        for mx in ((8,) if quick else (8, 16)):
+            out.append(dict(group="wraphist", first=first, max=mx, ncalls=3 if quick else 4))
     for G in ([[0, 0], [0, 1]], [[0, 1], [1, 0]], [[1, 1], [1, 1]]):
         for size in (4, 64):
             out.append(dict(group="transparent", G=G, max_size=size))
@@ -128,6 +133,74 @@ def _run_arraymap(c, col):
 # ------------------------------------------------------------------ 2. cached wrappers
 
 
+def _run_wraphist(c, col):
+    """log_likelihood_cached / log_likelihood_structural_change_cached over the real arraymap (tiny: every second insertion
+    overflows): after any history of calls the value returned for a genotype is that genotype's likelihood"""
+    E.cfg.concrete_ints = True
+    lk = E.load("mchap.assemble.likelihood")
+    am = E.load("mchap.assemble.arraymap")
+    ju = E.load("mchap.jitutils")
+    site = "mchap.assemble.likelihood.log_likelihood_structural_change_cached"
+    P, B = 2, 2
+    genos = list(itertools.product(range(2), repeat=P * B))
+
+    def key_of(g):
+        return tuple(int(x) for x in rnp.asarray(g).ravel())
+
+    def Lv(k):
+        return z3.Real("L_" + "".join(map(str, k)))
+
+    def stub_llk(reads, genotype, read_counts=None):
+        return E.np.log(E.SymReal(Lv(key_of(genotype))))
+
+    def stub_llk_sc(reads, genotype, haplotype_indices, interval=None, read_counts=None):
+        g = genotype.copy()
+        ju.structural_change(g, haplotype_indices, interval)
+        return E.np.log(E.SymReal(Lv(key_of(g))))
+
+    lk.log_likelihood = stub_llk
+    lk.log_likelihood_structural_change = stub_llk_sc
+    idx, iv = rnp.array([1, 0]), rnp.array([0, 1])
+    firsts = [genos[0], genos[5], genos[10], genos[15]]
+
+    def body(ctx):
+        for k in genos:
+            ctx.assume(Lv(k) > 0)
+        cache = am.new(P * B, 2, initial_size=2, max_size=c["max"])
+        res = []
+        for i in range(c["ncalls"]):
+            gi = genos.index(firsts[c["first"]]) if i == 0 else E.enum_int(ctx, "g%d" % i, 0, len(genos) - 1)
+            variant = 0 if i == 0 else int(E.SymInt(E.fresh_int(ctx, "v%d" % i, 0, 1)))
+            G = rnp.array(genos[gi], dtype=rnp.int8).reshape(P, B)
+            if variant == 0:
+                out, cache = lk.log_likelihood_cached(None, G, None, cache)
+                target = key_of(G)
+            else:
+                out, cache = lk.log_likelihood_structural_change_cached(None, G, idx, iv, None, cache)
+                g2 = G.copy()
+                ju.structural_change(g2, idx, iv)
+                target = key_of(g2)
+            if not any((G2 == G).all() for G2 in [rnp.array(genos[gi], dtype=rnp.int8).reshape(P, B)]):
+                raise AssertionError("wrapper modified the caller's genotype")
+            res.append((["plain", "sc"][variant], list(genos[gi]), target, out))
+        return res
+
+    first = True
+    for pr in E.explore(body, stats=col.stats):
+        if pr.exc is not None:
+            col.fail(site, "exception", shape=dict(group="wraphist"), witness=dict(exc=repr(pr.exc)), desc="raised %r" % (pr.exc,))
+            continue
+        col.path()
+        if first:
+            col.reachable(pr.ctx)
+            first = False
+        res = pr.value
+        hist = [(v_, g_) for v_, g_, _, _ in res]
+        claims = [E.exp_term(out) == Lv(target) for _, _, target, out in res]
+        col.check(pr.ctx, z3.And(claims), site, "wrapper-history-value", shape=dict(group="wraphist"), witness=dict(history=hist, max_size=c["max"]),
+                  desc="after any history of cached lookups (growth and overflow flushes of a tiny arraymap in between) the value returned is the likelihood of the genotype asked for (rearranged genotype for the structural wrapper)")
+
+
 class _AbstractMap:
     """stands for an arbitrary coherent arraymap state (justified by group 1): a dict keyed by the tuple"""
 
@@ -212,6 +285,12 @@ def _run_wrappers(c, col):
 
                 for pr in E.explore(body, stats=col.stats):
                     if pr.exc is not None:
+                        if isinstance(pr.exc, (AttributeError, TypeError)) and ("AM" in str(pr.exc) or "_AbstractMap" in str(pr.exc)):
+                            # the wrapper uses the arraymap beyond get/set: the abstract map cannot stand for it; such code is
+                            # decided by the wraphist group, which runs the wrappers on the real arraymap
+                            col.path()
+                            col.ok("abstract-map obligation not applicable to this wrapper (uses more than arraymap.get/set): decided on the real arraymap by the wraphist group")
+                            continue
                         raise pr.exc
                     col.path()
                     target, out, d, ev, cv, log = pr.value
@@ -562,6 +641,8 @@ def replay(v):
         return _replay_transparent(v)
     if c["group"] == "wrappers":
         return _replay_wrappers(v)
+    if c["group"] == "wraphist":
+        return _replay_wraphist(v)
     return False, "kind?"
 
 
@@ -645,6 +726,31 @@ def _replay_wrappers(v):
         stored = ram.get(cache, g2.ravel())
     bad = abs(a - want) > 1e-12 or abs(b - want) > 1e-12 or not (stored == want)
     return bad, "first=%r second=%r stored=%r recomputed=%r" % (a, b, stored, want)
+
+
+def _replay_wraphist(v):
+    """the same history on the real jitted wrappers and arraymap, against freshly computed likelihoods"""
+    import math
+    from mchap.assemble import likelihood as rl, arraymap as ram
+    from mchap import jitutils as rj
+
+    w = v["witness"]
+    reads = rnp.array([[[0.9, 0.1], [0.8, 0.2]], [[0.3, 0.7], [0.6, 0.4]], [[0.55, 0.45], [0.2, 0.8]]])
+    cache = ram.new(4, 2, initial_size=2, max_size=int(w.get("max_size", 8)))
+    idx, iv = rnp.array([1, 0]), rnp.array([0, 1])
+    for variant, g in w["history"]:
+        G = rnp.array(g, dtype=rnp.int8).reshape(2, 2)
+        if variant == "plain":
+            got, cache = rl.log_likelihood_cached(reads, G, None, cache)
+            want = rl.log_likelihood(reads, G)
+        else:
+            got, cache = rl.log_likelihood_structural_change_cached(reads, G, idx, iv, None, cache)
+            g2 = G.copy()
+            rj.structural_change(g2, idx, iv)
+            want = rl.log_likelihood(reads, g2)
+        if abs(got - want) > 1e-12:
+            return True, "history %s: the real %s wrapper returns %r for %s, recomputed %r" % (w["history"], variant, got, g, want)
+    return False, "real wrappers: every value of the history equals the recomputed likelihood"
 
 
 def _replay_pedcache(v):
